@@ -516,6 +516,7 @@ pub fn run(mode: Mode, run: &Run) {
     let idx: Vec<usize> = (0..total).collect();
     idx.par_iter().for_each(|&i0| {
         let i = (i0 + seed) % total;
+        let _w = run.watch("task_group", "group", &i.to_string());
         let its = match std::panic::catch_unwind(std::panic::AssertUnwindSafe(|| gens[i]())) {
             Ok(x) => x,
             Err(_) => {
